@@ -5,23 +5,42 @@ use serde_json::{Map, Value};
 /// A JSON object.
 pub type JsonObject = Map<String, Value>;
 
-/// Permisive deserialization for optional 256-bit integer types.
+/// Permissive deserialization for unsigned 256-bit integers: numbers, decimal
+/// strings and `0x`-prefixed hexadecimal strings. Negative numbers are rejected
+/// instead of being wrapped modulo 2^256.
+pub mod uint {
+    use ethnum::U256;
+    use serde::{de, Deserialize, Deserializer};
+    use serde_json::Value;
+
+    pub fn deserialize<'de, D>(deserializer: D) -> Result<U256, D::Error>
+    where
+        D: Deserializer<'de>,
+    {
+        let value = Value::deserialize(deserializer)?;
+        if matches!(&value, Value::Number(n) if n.as_f64().is_some_and(|n| n < 0.0)) {
+            return Err(de::Error::custom(format!(
+                "invalid negative value {value} for unsigned integer"
+            )));
+        }
+        ethnum::serde::permissive::deserialize(value).map_err(de::Error::custom)
+    }
+}
+
+/// Permisive deserialization for optional unsigned 256-bit integers.
 pub mod numopt {
-    use ethnum::serde::permissive::Permissive;
+    use ethnum::U256;
     use serde::{Deserialize, Deserializer};
 
     #[derive(Deserialize)]
     #[serde(transparent)]
-    struct Helper<T>(#[serde(with = "ethnum::serde::permissive")] T)
-    where
-        T: Permissive;
+    struct Helper(#[serde(with = "super::uint")] U256);
 
-    pub fn deserialize<'de, T, D>(deserializer: D) -> Result<Option<T>, D::Error>
+    pub fn deserialize<'de, D>(deserializer: D) -> Result<Option<U256>, D::Error>
     where
-        T: Permissive,
         D: Deserializer<'de>,
     {
-        let option = Option::deserialize(deserializer)?;
+        let option = Option::<Helper>::deserialize(deserializer)?;
         Ok(option.map(|Helper(v)| v))
     }
 }
